@@ -27,8 +27,12 @@ Record pspec := mkPS { ps_key : bytes; ps_order : bytes; ps_fixed : list bytes }
 
 Inductive ordk := OFirst | OAlpha | ONum | OFixed (l : list bytes).
 
+(** [None] = makeProjection returns its error before it touches anything:
+    unknown order name, or the order "fixed" without values (key@fixed,
+    "nothing to match") *)
 Definition order_of_spec (s : pspec) : option ordk :=
-  if beq (ps_order s) (bs "fixed") then Some (OFixed (ps_fixed s))
+  if beq (ps_order s) (bs "fixed")
+  then match ps_fixed s with [] => None | _ => Some (OFixed (ps_fixed s)) end
   else if beq (ps_order s) (bs "first") then Some OFirst
   else if beq (ps_order s) (bs "alpha") then Some OAlpha
   else if beq (ps_order s) (bs "num") then Some ONum
